@@ -89,6 +89,7 @@ type CaseOut struct {
 	Pads   []int64 `json:"pads"` // per key column: encoding of the value the writer's sort pads a null with
 	Keys   [][]*int64 `json:"keys"` // encoded key rows
 	Used   int     `json:"used"`
+	EffCond *Cond  `json:"effcond,omitempty"` // condition incl. the time bounds when the time column is a key column (else = in.cond)
 	NFrag  int     `json:"nfrag"`
 	MinMarks int   `json:"minmarks"`
 	CondErr string `json:"conderr"` // error of NewKeyCondition ("" = none)
@@ -122,7 +123,7 @@ func parseVal(ty string, s *string) tval {
 		return tval{null: true}
 	}
 	switch ty {
-	case "int":
+	case "int", "time":
 		v, err := strconv.ParseInt(*s, 10, 64)
 		if err != nil {
 			panic(err)
@@ -148,7 +149,7 @@ func fmtVal(ty string, v tval) *string {
 	}
 	var s string
 	switch ty {
-	case "int":
+	case "int", "time":
 		s = strconv.FormatInt(v.i, 10)
 	case "float":
 		s = strconv.FormatFloat(v.f, 'g', -1, 64)
@@ -163,7 +164,7 @@ func fmtVal(ty string, v tval) *string {
 // cmpVal: non-null values of one type; -1 0 1
 func cmpVal(ty string, a, b tval) int {
 	switch ty {
-	case "int":
+	case "int", "time":
 		if a.i < b.i {
 			return -1
 		} else if a.i > b.i {
@@ -198,7 +199,7 @@ func cmpVal(ty string, a, b tval) int {
 // padVal: the value record.SortForColumnStore sorts a null of this type as (lib/record/sort_item.go Pad*Slice)
 func padVal(ty string) tval {
 	switch ty {
-	case "int":
+	case "int", "time":
 		return tval{i: math.MinInt64}
 	case "float":
 		return tval{f: -math.MaxFloat64}
@@ -212,7 +213,7 @@ func padVal(ty string) tval {
 
 func fieldType(ty string) int {
 	switch ty {
-	case "int":
+	case "int", "time":
 		return influx.Field_Type_Int
 	case "float":
 		return influx.Field_Type_Float
@@ -226,7 +227,7 @@ func fieldType(ty string) int {
 
 func appendVal(cv *record.ColVal, ty string, v tval) {
 	switch ty {
-	case "int":
+	case "int", "time":
 		if v.null {
 			cv.AppendIntegerNull()
 		} else {
@@ -258,7 +259,7 @@ func readVal(cv *record.ColVal, ty string, row int) tval {
 		return tval{null: true}
 	}
 	switch ty {
-	case "int":
+	case "int", "time":
 		v, _ := cv.IntegerValue(row)
 		return tval{i: v}
 	case "float":
@@ -273,7 +274,16 @@ func readVal(cv *record.ColVal, ty string, row int) tval {
 	}
 }
 
-func keyName(i int) string { return "k" + strconv.Itoa(i) }
+// timeCol: index of the key column of type "time" in the case being run (-1: none). Such a key column is the record's
+// time column itself (a primary key / sort key may name "time"); set by newWorld.
+var timeCol = -1
+
+func keyName(i int) string {
+	if i == timeCol {
+		return "time"
+	}
+	return "k" + strconv.Itoa(i)
+}
 
 // ---------------------------------------------------------------------------------------------
 // running one case on the real code
@@ -285,6 +295,7 @@ type world struct {
 	pkSch  record.Schemas
 	src    *record.Record
 	rowsNum []int
+	recCol []int // key column (and v at index nk) -> column of src
 }
 
 func newWorld(in *CaseIn) *world {
@@ -297,21 +308,41 @@ func newWorld(in *CaseIn) *world {
 		tr[w.nk] = parseVal("int", r[w.nk])
 		w.rows = append(w.rows, tr)
 	}
+	timeCol = -1
+	for c, ty := range in.Types {
+		if ty == "time" {
+			timeCol = c
+		}
+	}
+	// record layout: the key columns that are not the time column, then "v", then "time" (always the last column)
 	var sch record.Schemas
+	w.recCol = make([]int, w.nk+1)
 	for c := 0; c < w.nk; c++ {
 		f := record.Field{Name: keyName(c), Type: fieldType(in.Types[c])}
-		sch = append(sch, f)
 		w.pkSch = append(w.pkSch, f)
+		if c != timeCol {
+			w.recCol[c] = len(sch)
+			sch = append(sch, f)
+		}
 	}
+	w.recCol[w.nk] = len(sch)
 	sch = append(sch, record.Field{Name: "v", Type: influx.Field_Type_Int})
+	if timeCol >= 0 {
+		w.recCol[timeCol] = len(sch)
+	}
 	sch = append(sch, record.Field{Name: "time", Type: influx.Field_Type_Int})
 	w.src = record.NewRecord(sch, false)
 	for ri, r := range w.rows {
-		for c := 0; c < w.nk; c++ {
-			appendVal(w.src.Column(c), in.Types[c], r[c])
+		for c := 0; c <= w.nk; c++ {
+			ty := "int"
+			if c < w.nk {
+				ty = in.Types[c]
+			}
+			appendVal(w.src.Column(w.recCol[c]), ty, r[c])
 		}
-		appendVal(w.src.Column(w.nk), "int", r[w.nk])
-		w.src.Column(w.nk + 1).AppendInteger(int64(1000 + ri))
+		if timeCol < 0 {
+			w.src.Column(len(sch) - 1).AppendInteger(int64(1000 + ri))
+		}
 	}
 	if in.WriterSort {
 		var order []record.PrimaryKey
@@ -327,7 +358,7 @@ func newWorld(in *CaseIn) *world {
 				if c < w.nk {
 					ty = in.Types[c]
 				}
-				w.rows[ri][c] = readVal(w.src.Column(c), ty, ri)
+				w.rows[ri][c] = readVal(w.src.Column(w.recCol[c]), ty, ri)
 			}
 		}
 	}
@@ -352,7 +383,7 @@ func (w *world) build() (*record.Record, fragment.IndexFragment, error) {
 func litExpr(ty string, lit string) influxql.Expr {
 	v := parseVal(ty, &lit)
 	switch ty {
-	case "int":
+	case "int", "time":
 		return &influxql.IntegerLiteral{Val: v.i}
 	case "float":
 		return &influxql.NumberLiteral{Val: v.f}
@@ -366,7 +397,7 @@ func litExpr(ty string, lit string) influxql.Expr {
 
 func varType(ty string) influxql.DataType {
 	switch ty {
-	case "int":
+	case "int", "time":
 		return influxql.Integer
 	case "float":
 		return influxql.Float
@@ -413,7 +444,7 @@ func (w *world) expr(c *Cond) influxql.Expr {
 		for _, l := range c.Lits {
 			v := parseVal(ty, &l)
 			switch ty {
-			case "int":
+			case "int", "time":
 				set.Vals[v.i] = true
 			case "float":
 				set.Vals[v.f] = true
@@ -537,7 +568,7 @@ func (e *encoder) enc(v tval) *int64 {
 	if v.null {
 		return nil
 	}
-	if e.ty == "int" {
+	if e.ty == "int" || e.ty == "time" {
 		x := v.i
 		return &x
 	}
@@ -588,13 +619,22 @@ func runCase(id int, in *CaseIn) *CaseOut {
 	encs := make([]*encoder, w.nk)
 	for c := 0; c < w.nk; c++ {
 		encs[c] = &encoder{ty: in.Types[c]}
-		out.IsInt = append(out.IsInt, in.Types[c] == "int")
+		out.IsInt = append(out.IsInt, in.Types[c] == "int" || in.Types[c] == "time")
 		for _, r := range w.rows {
 			encs[c].add(r[c])
 		}
 		encs[c].add(padVal(in.Types[c]))
 	}
-	collectLits(in.Cond, func(a *Cond) {
+	// the condition the index sees: NewKeyCondition ANDs the query's time bounds to it; they are ordinary key atoms when
+	// the time column is a key column (otherwise AlwaysTrue elements, which change no mark: mand (true,false) m = m)
+	eff := in.Cond
+	if in.TimeCond && timeCol >= 0 {
+		eff = &Cond{Op: "and", Args: []*Cond{
+			{Op: "and", Args: []*Cond{{Op: ">=", Col: timeCol, Lit: "0"}, {Op: "<=", Col: timeCol, Lit: strconv.FormatInt(1<<40, 10)}}},
+			in.Cond}}
+		out.EffCond = eff
+	}
+	collectLits(eff, func(a *Cond) {
 		if a.Col >= 0 && a.Op != "in" {
 			encs[a.Col].add(parseVal(in.Types[a.Col], &a.Lit))
 		}
@@ -610,7 +650,7 @@ func runCase(id int, in *CaseIn) *CaseOut {
 		}
 		out.Keys = append(out.Keys, kr)
 	}
-	collectLits(in.Cond, func(a *Cond) {
+	collectLits(eff, func(a *Cond) {
 		if a.Op == "in" {
 			return
 		}
@@ -626,14 +666,14 @@ func runCase(id int, in *CaseIn) *CaseOut {
 	for _, b := range fb {
 		m := false
 		for r := b[0]; r < b[1]; r++ {
-			if w.eval(in.Cond, w.rows[r]) {
+			if w.eval(eff, w.rows[r]) {
 				m = true
 			}
 		}
 		out.Match = append(out.Match, m)
 		me := false
 		for r := b[0]; r < b[1]; r++ {
-			if w.evalMode(in.Cond, w.rows[r], true) {
+			if w.evalMode(eff, w.rows[r], true) {
 				me = true
 			}
 		}
@@ -801,7 +841,7 @@ func runCase(id int, in *CaseIn) *CaseOut {
 				}
 				var v tval
 				switch in.Types[c] {
-				case "int":
+				case "int", "time":
 					v.i, _ = col.IntegerValue(row)
 				case "float":
 					v.f, _ = col.FloatValue(row)
@@ -846,7 +886,6 @@ func runCase(id int, in *CaseIn) *CaseOut {
 		}
 		mm := record.NewRecord(w.pkSch[:used].Copy(), false)
 		rect := Rect{}
-		hasNull := make([]bool, used)
 		allNull := make([]bool, used)
 		for c := 0; c < used; c++ {
 			ty := in.Types[c]
@@ -855,7 +894,6 @@ func runCase(id int, in *CaseIn) *CaseOut {
 			for r := b[0]; r < b[1]; r++ {
 				x := w.rows[r][c]
 				if x.null {
-					hasNull[c] = true
 					continue
 				}
 				if first || cmpVal(ty, x, mn) < 0 {
@@ -874,10 +912,10 @@ func runCase(id int, in *CaseIn) *CaseOut {
 			appendVal(mm.Column(c), ty, mx)
 			lo, hi := encs[c].enc(mn), encs[c].enc(mx)
 			lok, hik := 0, 0
+			// exactly the rectangle of coq/C20/MinMax.v mm_rect: [min, max] of the non-null values, nulls ignored (a null
+			// satisfies no comparison); a column without any value: the point +inf
 			if allNull[c] {
 				lo, hi, lok, hik = nil, nil, 1, 1
-			} else if hasNull[c] {
-				hi, hik = nil, 1
 			}
 			rect.Lo, rect.LoK, rect.Hi, rect.HiK = append(rect.Lo, lo), append(rect.LoK, lok), append(rect.Hi, hi), append(rect.HiK, hik)
 		}
@@ -892,7 +930,7 @@ func runCase(id int, in *CaseIn) *CaseOut {
 			if allNull[c] {
 				l.SetPositiveInfinity()
 			}
-			if hasNull[c] || allNull[c] {
+			if allNull[c] {
 				r.SetPositiveInfinity()
 			}
 			rgs[c] = sparseindex.NewRange(l, r, true, true)
@@ -963,8 +1001,13 @@ func b2i(b bool) int {
 
 var intDom = []int64{-3, -1, 0, 1, 2, 3, 4, 5, 7, 9}
 var intEdge = []int64{math.MaxInt64, math.MinInt64, math.MaxInt64 - 1, math.MinInt64 + 1}
-var floatDom = []float64{-2.5, -1, 0, 0.5, 1, 1.5, 2, 3.25, 1e300, -1e300, math.Inf(1), math.Inf(-1), 5e-324}
-var strDom = []string{"", "A", "B", "C", "D", "E", "Da", "a", "ab", "b", "\x00", "\xff"}
+var floatDom = []float64{-2.5, -1, 0, 0.5, 1, 1.5, 2, 3.25, 1e300, -1e300, math.Inf(1), math.Inf(-1), 5e-324,
+	math.Copysign(0, -1), -math.MaxFloat64, math.MaxFloat64, -5e-324}
+var strDom = []string{"", "A", "B", "C", "D", "E", "Da", "a", "ab", "b", "\x00", "\xff", "é", "日本", "日", "a\u00e9", "\U0001F600", "z"}
+
+// a key column of type "time" is the record's time column (never null); values inside the time bounds 0 .. 1<<40 that a
+// time condition of the query carries, duplicates allowed
+var timeDom = []int64{0, 1, 2, 5, 1000, 1001, 1 << 20, 1<<40 - 1, 1 << 40, 7, 8, 9}
 
 var textMode bool
 var textDom = []string{"hello", "hello world", "world", "GET /a", "a b c", "10.0.0.5", "10.0.1.7", "192.168.1.1", "", "zeta", "hello,world", "world hello"}
@@ -975,6 +1018,8 @@ func genVal(r *gen.Rand, ty string, small int) tval {
 		return tval{s: textDom[r.Intn(len(textDom))]}
 	}
 	switch ty {
+	case "time":
+		return tval{i: timeDom[r.Intn(min(small, len(timeDom)))]}
 	case "int":
 		if r.Chance(1, 25) {
 			return tval{i: gen.Pick(r, intEdge)}
@@ -1000,6 +1045,9 @@ func genCase(r *gen.Rand) *CaseIn {
 	for c := 0; c < nk; c++ {
 		in.Types = append(in.Types, gen.Pick(r, tys))
 	}
+	if r.Chance(1, 6) {
+		in.Types[r.Intn(nk)] = "time" // the sort key / primary key names the time column
+	}
 	if textMode {
 		in.Types[r.Intn(nk)] = "string"
 	}
@@ -1019,7 +1067,7 @@ func genCase(r *gen.Rand) *CaseIn {
 	for i := range rows {
 		row := make([]tval, nk+1)
 		for c := 0; c < nk; c++ {
-			if r.Intn(100) < nullPct {
+			if r.Intn(100) < nullPct && in.Types[c] != "time" {
 				row[c] = tval{null: true}
 			} else {
 				row[c] = genVal(r, in.Types[c], small[c])
